@@ -206,6 +206,8 @@ type writer struct {
 	id    int
 	subs  []submit // owner: the writer task
 	done  bool
+	inCall bool
+	calls  int
 	foreignCh func() *gomavlib.Channel
 	closedCh  func() *gomavlib.Channel
 }
